@@ -1115,7 +1115,8 @@ class DecayModelAliasReplacement(Transformer):  # type: ignore[misc]
                 f"Decay model or ModelAlias {t.value} is not defined. Please load the decay model with "
                 "``load_additional_decay_models`` or define a ModelAlias in the decayfile."
             )
-        return self.define_defs[t.value]
+        # Every use gets its own copy: the replaced subtree is modified in place later on
+        return copy.deepcopy(self.define_defs[t.value])
 
     def model(self, treelist: list[Tree]) -> Tree:
         """
